@@ -81,6 +81,20 @@ pub fn run(out: &Path, seed: u64, thorough: bool, prop: &str) -> Result<(), Box<
             }
             h = with_reads;
         }
+        if prop == "c03" && i % 2 == 0 {
+            // end game (see simcheck::c03_eval): pad above the window, commit exactly now, reorg
+            // to the deepest admissible height, add one more block
+            let mut dry = crate::sim::Run::new();
+            if dry.run(&h) && !dry.tracker.desynced && dry.tracker.at_boundary() {
+                if let Some(h0) = dry.tracker.height() {
+                    let w = brc20_prog::verif_hooks::MAX_REORG_HISTORY_SIZE;
+                    if h0 < w + 1 { h.push(Op::Mine { n: w + 1 - h0, ts: 1_760_000_000 }); }
+                    let top = h0.max(w + 1);
+                    let deepest = dry.tracker.max_ever.unwrap_or(top).max(top).saturating_sub(w);
+                    if deepest < top { h.push(Op::Commit); h.push(Op::Reorg(deepest)); h.push(Op::Mine { n: 1, ts: 1_760_000_100 }); }
+                }
+            }
+        }
         for op in &h { *hist_ops.entry(op.kind().to_string()).or_default() += 1; }
         let (tr, _run, problem) = trace_history(&h, &mut rng);
         if let Some(pb) = problem {
